@@ -13,11 +13,22 @@ from .common import harness, outcome, mk_ragged
 DV = 1000   # cell values are cargo here; range only keeps models readable
 
 
+H, B0 = 1 << 40, 2
+
+
 def gen_bounds(E, tag, spec, B):
+    import z3
+    if spec.get("huge"):
+        B = H + B0
     """spec: dict(s=step or None[, pres=[...]]); which of start/stop are present is forked here"""
     pres = E.choose(tag + "_pres", spec.get("pres") or [(0, 0), (1, 0), (0, 1), (1, 1)])
     a = E.int(tag + "_a", -B, B) if pres[0] else None
     b = E.int(tag + "_b", -B, B) if pres[1] else None
+    if spec.get("huge"):
+        # bounds far beyond the rows (they clamp, as for python lists): small offsets around 0 and around +-2^40
+        for v in (a, b):
+            if v is not None:
+                E.assume(z3.Or(z3.And(v >= -B0, v <= B0), z3.And(v >= H - B0, v <= H + B0), z3.And(v >= -H - B0, v <= -H + B0)))
     return {"t": "slice", "a": a, "b": b, "s": spec.get("s")}
 
 
@@ -28,7 +39,7 @@ def gen_rowsel(E, p, R, B):
     if rk == "int":
         return {"t": "int", "i": E.int("ri", -B, B)}
     if rk == "slice":
-        return gen_bounds(E, "rs", {"s": p.get("rstep"), "pres": p.get("rpres")}, p.get("RB", B))
+        return gen_bounds(E, "rs", {"s": p.get("rstep"), "pres": p.get("rpres"), "huge": p.get("huge")}, p.get("RB", B))
     if rk in ("list", "array"):
         return {"t": rk, "v": [E.int(f"rv{k}", -B, B) for k in range(p["k"])]}
     if rk == "mask":
@@ -42,7 +53,7 @@ def gen_colsel(E, p, B):
         return {"t": "none"}
     if ck == "int":
         return {"t": "int", "j": E.int("cj", -B, B)}
-    return gen_bounds(E, "cs", {"s": p.get("cstep"), "pres": p.get("cpres")}, B)
+    return gen_bounds(E, "cs", {"s": p.get("cstep"), "pres": p.get("cpres"), "huge": p.get("huge")}, B)
 
 
 def gen_ragged(E, p, min_rows=0, dtype="int64"):
@@ -116,6 +127,9 @@ def jobs(tier, seed):
     else:
         out.append(dict(base, ck="none", rk="list", k=3, L=2))       # permutations / repeats of three rows (materialisation of a row-list selection)
     out.append(dict(base, ck="none", rk="list", k=4, R=4, L=2, B=4))      # four rows, four entries
+    for s_ in (None, -1, 2):
+        out.append(dict(base, ck="slice", cstep=s_, rk="all", huge=True, R=2, L=2))          # slice bounds around +-2^40
+        out.append(dict(base, ck="none", rk="slice", rstep=s_, huge=True, R=2, L=2))
     out.append(dict(base, ck="slice", cstep=None, cpres=[(1, 0)], rk="array", k=4, R=4, L=1, B=4))
     # rows only: every presence pattern of the slice bounds
     for rk in rowkinds + [dict(rk="slice", rstep=s) for s in steps]:
